@@ -185,9 +185,10 @@ static void dump_flags(zckCtx *z) {
     size_t cap = 1 << 16, o = 0;
     char *b = malloc(cap);
     long n = 0;
-    for(zckChunk *c = zck_get_first_chunk(z); c; c = zck_get_next_chunk(c)) {
+    /* read the markings directly: the getters refuse while an error is pending */
+    for(zckChunk *c = z ? z->index.first : NULL; c; c = c->next) {
         if(o + 16 > cap) { cap *= 2; b = realloc(b, cap); }
-        o += snprintf(b + o, cap - o, "%s%d", n ? "," : "", zck_get_chunk_valid(c));
+        o += snprintf(b + o, cap - o, "%s%d", n ? "," : "", c->valid);
         n++;
     }
     b[o] = 0;
@@ -196,6 +197,7 @@ static void dump_flags(zckCtx *z) {
 }
 
 /* ---- download side -------------------------------------------------- */
+static int feed_quiet;
 static size_t feed(zckDL *dl, char *data, size_t len, const char *fragspec, int kind, int keep_going) {
     /* fragspec: "all" | "n:<size>" | "cuts:a,b,c" (ascending offsets) */
     size_t pos = 0, ncb = 0;
@@ -234,14 +236,14 @@ static size_t feed(zckDL *dl, char *data, size_t len, const char *fragspec, int 
         free(copy);
         ncb++;
         if(r != n) {
-            zh_log("{\"i\":%d,\"ev\":\"cb\",\"kind\":%d,\"pos\":%zu,\"len\":%zu,\"ret\":%zu,\"err\":1}", opi, kind, pos, n, r);
+            if(!feed_quiet) zh_log("{\"i\":%d,\"ev\":\"cb\",\"kind\":%d,\"pos\":%zu,\"len\":%zu,\"ret\":%zu,\"err\":1}", opi, kind, pos, n, r);
             failed = 1;
             if(!keep_going) break;
         }
         pos = end;
     }
     free(cuts);
-    zh_log("{\"i\":%d,\"op\":\"feed\",\"kind\":%d,\"len\":%zu,\"callbacks\":%zu,\"delivered\":%zu,\"failed\":%d,\"mp_state\":%d,\"mp_buffered\":%zu}",
+    if(!feed_quiet) zh_log("{\"i\":%d,\"op\":\"feed\",\"kind\":%d,\"len\":%zu,\"callbacks\":%zu,\"delivered\":%zu,\"failed\":%d,\"mp_state\":%d,\"mp_buffered\":%zu}",
            opi, kind, len, ncb, pos, failed, dl->mp ? dl->mp->state : -1, dl->mp ? dl->mp->buffer_len : 0);
     return failed ? 0 : 1;
 }
@@ -571,6 +573,13 @@ int main(int argc, char **argv) {
             do_update(t, nt);
         } else if(!strcmp(op, "serve")) {
             do_serve(t, nt);
+        } else if(!strcmp(op, "sweep")) {
+            do_sweep(t, nt);
+        } else if(!strcmp(op, "watch")) {
+            io_watch(t[1], t[2] ? t[2] : "");
+            RET("\"rc\":%d", 1);
+        } else if(!strcmp(op, "watchstat")) {
+            RET("\"oob\":%ld,\"writes\":%ld", io_oob_count, io_watch_writes);
         } else if(!strcmp(op, "iocounts")) {
             io_dump_counts();
         } else if(!strcmp(op, "min_dl_size")) {
